@@ -1,8 +1,7 @@
 (* C19 proofs, part 6: callbacks that stop a listing early (return false).
-   - as long as every answer of the callback is true, the stop-aware functions ( *_s )
-     coincide with the functions of the first part, so every theorem about those applies;
-   - refuted: a callback that returned false is invoked again by both refill loops, and the
-     gRPC server's loop therefore sends more entries than its limit. *)
+   As long as every answer of the callback is true, the stop-aware functions ( *_s )
+   coincide with the functions of the first part, so every theorem about those applies.
+   (What a callback that does answer false gets is proved in ListingStopSpec.v.) *)
 From Coq Require Import List NArith Bool String Ascii Arith Lia.
 From SW Require Import model.Listing proof.ListingBase proof.ListingStore proof.ListingScan proof.ListingPattern
                        proof.ListingProofs.
@@ -12,9 +11,6 @@ Local Open Scope list_scope.
 Local Notation length := List.length.
 
 Definition all_true (ans : list bool) : Prop := forallb (fun b => b) ans = true.
-
-Lemma trig_stop_all_true : forall ans, trig_stop ans = false -> all_true ans.
-Proof. intros ans H. unfold trig_stop in H. apply negb_false_iff in H. exact H. Qed.
 
 Lemma cb_step_true : forall ms ans e, all_true ans ->
   snd (cb_step ms ans e) = true /\ all_true (fst (cb_step ms ans e)).
@@ -27,23 +23,24 @@ Qed.
 
 Lemma lvl_iter_s_true : forall ms l start incl limit p ans, all_true ans ->
   h_vis (lvl_iter_s ms l start incl limit p ans) = lvl_iter l start incl limit p /\
-  all_true (h_ans (lvl_iter_s ms l start incl limit p ans)).
+  all_true (h_ans (lvl_iter_s ms l start incl limit p ans)) /\
+  h_stop (lvl_iter_s ms l start incl limit p ans) = false.
 Proof.
-  induction l as [|e l IH]; intros start incl limit p ans H; cbn [lvl_iter_s lvl_iter]; [split; auto|].
-  destruct (negb (String.prefix p (ename e))); [split; auto|].
+  induction l as [|e l IH]; intros start incl limit p ans H; cbn [lvl_iter_s lvl_iter]; [repeat split; auto|].
+  destruct (negb (String.prefix p (ename e))); [repeat split; auto|].
   destruct (String.eqb (ename e) ""); [apply IH; auto|].
   destruct (String.eqb (ename e) start && negb incl); [apply IH; auto|].
-  destruct limit as [|limit]; [split; auto|].
-  destruct (cb_step_true ms ans e H) as [H1 H2]. rewrite H1. cbn [h_vis h_ans].
-  destruct (IH start incl limit p _ H2) as [I1 I2]. rewrite I1. split; auto.
+  destruct limit as [|limit]; [repeat split; auto|].
+  destruct (cb_step_true ms ans e H) as [H1 H2]. rewrite H1. cbn [h_vis h_ans h_stop].
+  destruct (IH start incl limit p _ H2) as [I1 [I2 I3]]. rewrite I1. repeat split; auto.
 Qed.
 
 Lemma hand_true : forall ms b ans, all_true ans ->
-  h_vis (hand ms b ans) = b /\ all_true (h_ans (hand ms b ans)).
+  h_vis (hand ms b ans) = b /\ all_true (h_ans (hand ms b ans)) /\ h_stop (hand ms b ans) = false.
 Proof.
-  induction b as [|e b IH]; intros ans H; cbn [hand]; [split; auto|].
-  destruct (cb_step_true ms ans e H) as [H1 H2]. rewrite H1. cbn [h_vis h_ans].
-  destruct (IH _ H2) as [I1 I2]. rewrite I1. split; auto.
+  induction b as [|e b IH]; intros ans H; cbn [hand]; [repeat split; auto|].
+  destruct (cb_step_true ms ans e H) as [H1 H2]. rewrite H1. cbn [h_vis h_ans h_stop].
+  destruct (IH _ H2) as [I1 [I2 I3]]. rewrite I1. repeat split; auto.
 Qed.
 
 Lemma pf_batch_s_true : forall ms p batch need last ans, all_true ans ->
@@ -61,7 +58,7 @@ Qed.
 
 Lemma pf_loop_s_true : forall fuel ms d limit p last count batch acc ans, all_true ans ->
   match pf_loop fuel d limit p last count batch acc with
-  | Some (v, l) => exists a, pf_loop_s fuel ms d limit p last count batch acc ans = Some (v, l, a) /\ all_true a
+  | Some (v, l) => exists a, pf_loop_s fuel ms d limit p last count batch acc ans = Some (v, l, a, false) /\ all_true a
   | None => pf_loop_s fuel ms d limit p last count batch acc ans = None
   end.
 Proof.
@@ -76,16 +73,16 @@ Qed.
 
 Lemma wrapper_list_s_true : forall s ms d start incl limit p ans, all_true ans ->
   match wrapper_list s d start incl limit p with
-  | Some w => exists a, wrapper_list_s s ms d start incl limit p ans = Some (w, a) /\ all_true a
+  | Some w => exists a, wrapper_list_s s ms d start incl limit p ans = Some (w, a, false) /\ all_true a
   | None => wrapper_list_s s ms d start incl limit p ans = None
   end.
 Proof.
   intros s ms d start incl limit p ans H. destruct s; cbn [wrapper_list wrapper_list_s].
   - unfold lvl_list. match goal with |- context [lvl_iter_s ms ?l start incl limit p ans] =>
-      destruct (lvl_iter_s_true ms l start incl limit p ans H) as [I1 I2] end.
-    rewrite I1. eauto.
+      destruct (lvl_iter_s_true ms l start incl limit p ans H) as [I1 [I2 I3]] end.
+    rewrite I1, I3. eauto.
   - unfold gen_list. destruct (String.eqb p "").
-    + destruct (hand_true ms (mem_list d start incl limit) ans H) as [I1 I2]. rewrite I1. eauto.
+    + destruct (hand_true ms (mem_list d start incl limit) ans H) as [I1 [I2 I3]]. rewrite I1, I3. eauto.
     + pose proof (pf_loop_s_true (S (length d)) ms d limit p (last_name (mem_list d start incl limit)) 0
                                  (mem_list d start incl limit) [] ans H) as I.
       destruct (pf_loop (S (length d)) d limit p (last_name (mem_list d start incl limit)) 0 (mem_list d start incl limit) [])
@@ -97,7 +94,8 @@ Qed.
 Definition rel (ms : string -> bool) (rs : sres) (r : lres) : Prop :=
   s_exp rs = r_count r /\ s_last rs = r_last r /\ s_dir rs = r_dir r /\
   s_names rs = filter (fun n => negb (ms n)) (r_names r) /\
-  s_miss rs = length (filter ms (r_names r)) /\ all_true (s_ans rs).
+  s_miss rs = length (filter ms (r_names r)) /\ all_true (s_ans rs) /\
+  s_live rs = r_names r /\ s_stop rs = false.
 
 Lemma do_list_s_true : forall s ms d start incl limit p ans, all_true ans ->
   match do_list s d start incl limit p with
@@ -118,15 +116,15 @@ Lemma valid_loop_s_true : forall fuel s ms p rs r, rel ms rs r ->
   | None => valid_loop_s fuel s ms p rs = None
   end.
 Proof.
-  induction fuel as [|f IH]; intros s ms p rs r [R1 [R2 [R3 [R4 [R5 R6]]]]]; cbn [valid_loop valid_loop_s]; rewrite R1.
+  induction fuel as [|f IH]; intros s ms p rs r [R1 [R2 [R3 [R4 [R5 [R6 [R7 R8]]]]]]]; cbn [valid_loop valid_loop_s]; rewrite R1, R8.
   - destruct (r_count r) eqn:Ec; [exists rs; split; [reflexivity|unfold rel; rewrite Ec; repeat split; auto]|reflexivity].
   - destruct (r_count r) as [|k] eqn:Ec; [exists rs; split; [reflexivity|unfold rel; rewrite Ec; repeat split; auto]|].
     rewrite R2, R3.
     pose proof (do_list_s_true s ms (r_dir r) (r_last r) false (S k) p (s_ans rs) R6) as I.
     destruct (do_list s (r_dir r) (r_last r) false (S k) p) as [r1|]; [|rewrite I; reflexivity].
-    destruct I as [rs1 [E [Q1 [Q2 [Q3 [Q4 [Q5 Q6]]]]]]]. rewrite E.
-    apply IH. unfold rel. cbn [s_exp s_miss s_last s_names s_dir s_ans r_count r_last r_names r_dir].
-    rewrite Q2, Q4, Q5, R4, R5, !filter_app, app_length. repeat split; auto.
+    destruct I as [rs1 [E [Q1 [Q2 [Q3 [Q4 [Q5 [Q6 [Q7 Q8]]]]]]]]]. rewrite E.
+    apply IH. unfold rel. cbn [s_exp s_miss s_last s_live s_names s_dir s_ans s_stop r_count r_last r_names r_dir].
+    rewrite Q2, Q4, Q5, Q7, R4, R5, R7, !filter_app, app_length. repeat split; auto.
 Qed.
 
 Lemma list_valid_s_true : forall s ms d start incl limit p ans, all_true ans ->
@@ -143,7 +141,8 @@ Qed.
 
 (* after the pattern closure *)
 Definition rel2 (rs : sres) (r : lres) : Prop :=
-  s_miss rs = r_count r /\ s_last rs = r_last r /\ s_dir rs = r_dir r /\ s_names rs = r_names r /\ all_true (s_ans rs).
+  s_miss rs = r_count r /\ s_last rs = r_last r /\ s_dir rs = r_dir r /\ s_names rs = r_names r /\ all_true (s_ans rs) /\
+  s_stop rs = false.
 
 Lemma ms_of_missed : forall p rest excl n, ms_of p rest excl n = missed p rest excl n.
 Proof.
@@ -160,7 +159,7 @@ Proof.
   intros s d start incl limit p rest excl ans H. unfold pattern_list.
   pose proof (list_valid_s_true s (ms_of p rest excl) d start incl limit p ans H) as I.
   destruct (list_valid s d start incl limit p) as [r|]; [|exact I].
-  destruct I as [rs [E [R1 [R2 [R3 [R4 [R5 R6]]]]]]].
+  destruct I as [rs [E [R1 [R2 [R3 [R4 [R5 [R6 [R7 R8]]]]]]]]].
   assert (F1 : filter (ms_of p rest excl) (r_names r) = filter (missed p rest excl) (r_names r))
     by (apply filter_ext_in_eq; intros; apply ms_of_missed).
   assert (F2 : filter (fun n => negb (ms_of p rest excl n)) (r_names r) = filter (fun n => negb (missed p rest excl n)) (r_names r))
@@ -179,28 +178,27 @@ Lemma stream_loop_s_true : forall fuel s p rest excl rs r, rel2 rs r ->
   | None => stream_loop_s fuel s (ms_of p rest excl) p rs = None
   end.
 Proof.
-  induction fuel as [|f IH]; intros s p rest excl rs r [R1 [R2 [R3 [R4 R5]]]]; cbn [stream_loop stream_loop_s]; rewrite R1.
+  induction fuel as [|f IH]; intros s p rest excl rs r [R1 [R2 [R3 [R4 [R5 R8]]]]]; cbn [stream_loop stream_loop_s]; rewrite R1, R8.
   - destruct (r_count r) eqn:Ec; [exists rs; split; [reflexivity|unfold rel2; rewrite Ec; repeat split; auto]|reflexivity].
   - destruct (r_count r) as [|k] eqn:Ec; [exists rs; split; [reflexivity|unfold rel2; rewrite Ec; repeat split; auto]|].
     rewrite R2, R3.
     pose proof (pattern_list_s_true s (r_dir r) (r_last r) false (S k) p rest excl (s_ans rs) R5) as I.
     destruct (pattern_list s (r_dir r) (r_last r) false (S k) p rest excl) as [r1|]; [|rewrite I; reflexivity].
-    destruct I as [rs1 [E [Q1 [Q2 [Q3 [Q4 Q5]]]]]]. rewrite E.
-    apply IH. unfold rel2. cbn [s_exp s_miss s_last s_names s_dir s_ans r_count r_last r_names r_dir].
+    destruct I as [rs1 [E [Q1 [Q2 [Q3 [Q4 [Q5 Q8]]]]]]]. rewrite E.
+    apply IH. unfold rel2. cbn [s_exp s_miss s_last s_live s_names s_dir s_ans s_stop r_count r_last r_names r_dir].
     rewrite Q2, Q4, R4. repeat split; auto.
 Qed.
 
-(* partial (trigger: the callback answers false at some point): the stop-aware listing is the
-   listing of the first part *)
+(* with a callback that never answers false the stop-aware listing is the listing of the first part *)
 Theorem stream_list_s_true : forall s d start incl limit prefix pat excl ans,
-  trig_stop ans = false ->
+  all_true ans ->
   match stream_list s d start incl limit prefix pat excl with
   | Some r => exists rs, stream_list_s s d start incl limit prefix pat excl ans = Some rs /\
                          s_names rs = r_names r /\ s_last rs = r_last r /\ s_dir rs = r_dir r /\ s_miss rs = 0
   | None => stream_list_s s d start incl limit prefix pat excl ans = None
   end.
 Proof.
-  intros s d start incl limit prefix pat excl ans Ht. apply trig_stop_all_true in Ht.
+  intros s d start incl limit prefix pat excl ans Ht.
   unfold stream_list, stream_list_s.
   set (p := eff_prefix prefix pat). set (rest := snd (split_pattern pat)).
   pose proof (pattern_list_s_true s d start incl limit p rest excl ans Ht) as I.
@@ -208,7 +206,7 @@ Proof.
   destruct I as [rs0 [E R]]. rewrite E.
   pose proof (stream_loop_s_true (S (length d)) s p rest excl rs0 r0 R) as J.
   destruct (stream_loop (S (length d)) s p rest excl r0) as [r|] eqn:El; [|exact J].
-  destruct J as [rs [E2 [Q1 [Q2 [Q3 [Q4 Q5]]]]]]. exists rs. split; [exact E2|]. repeat split; auto.
+  destruct J as [rs [E2 [Q1 [Q2 [Q3 [Q4 [Q5 Q8]]]]]]]. exists rs. split; [exact E2|]. repeat split; auto.
   rewrite Q1.
   (* a finished loop has no outstanding miss *)
   clear -El. revert r0 El. generalize (S (length d)) as fuel.
@@ -218,62 +216,6 @@ Proof.
     destruct (pattern_list s (r_dir r0) (r_last r0) false (S n) p rest excl); [|discriminate].
     eapply IH; eauto.
 Qed.
-
-(* ... hence exact *)
-Theorem stream_list_s_exact : forall s d start incl limit prefix pat excl ans,
-  wf d -> trig_stop ans = false ->
-  exists rs, stream_list_s s d start incl limit prefix pat excl ans = Some rs /\
-    s_names rs = map ename (firstn limit (impl_sel start incl prefix pat excl d)) /\
-    wf (s_dir rs) /\ filter elive (s_dir rs) = filter elive d.
-Proof.
-  intros s d start incl limit prefix pat excl ans Hwf Ht.
-  destruct (stream_list_spec s d start incl limit prefix pat excl Hwf) as [r [E [S1 [S2 S3]]]].
-  pose proof (stream_list_s_true s d start incl limit prefix pat excl ans Ht) as I. rewrite E in I.
-  destruct I as [rs [E2 [Q1 [Q2 [Q3 Q4]]]]]. exists rs. rewrite Q1, Q3. auto.
-Qed.
-
-(* ================= refuted (finding 1), reproduced on the real Filer by harness/cmd/c19 ================= *)
-Definition stop_dir : dirst := [("a", true); ("b", false); ("c", false); ("d", false)].
-Definition stop_dir_live : dirst := [("a", false); ("b", false); ("c", false); ("d", false)].
-Definition grpc_dir : dirst := [("a", false); ("b", false); ("c", true); ("d", false); ("e", false); ("f", false)].
-
-Definition s_proj (o : option sres) : option (list string * string) := option_map (fun r => (s_names r, s_last r)) o.
-
-(* the callback answers false on its first call (entry b) and is called again with c:
-   by the expired-entries refill (doListValidEntries) and by the missed-entries refill
-   (StreamListDirectoryEntries), on both store kinds *)
-Lemma stop_refuted :
-  wf stop_dir /\ wf stop_dir_live /\ trig_stop [false] = true /\
-  s_proj (stream_list_s Lvl stop_dir "" false 3 "" "" "" [false]) = Some (["b"; "c"], "c") /\
-  s_proj (stream_list_s Gen stop_dir "" false 3 "" "" "" [false]) = Some (["b"; "c"], "c") /\
-  s_proj (stream_list_s Lvl stop_dir_live "" false 2 "" "" "a" [false]) = Some (["b"; "c"], "c") /\
-  s_proj (stream_list_s Gen stop_dir_live "" false 2 "" "" "a" [false]) = Some (["b"; "c"], "c") /\
-  stop_respected [false] ["b"; "c"] = false.
-Proof.
-  split; [apply wfb_wf; vm_compute; reflexivity|]. split; [apply wfb_wf; vm_compute; reflexivity|].
-  repeat (match goal with |- _ /\ _ => split end); vm_compute; reflexivity.
-Qed.
-
-(* FilerServer.ListEntries' loop with limit 3 and page size 2: an expired entry on the last
-   page makes the refill call the stopped callback again; 4 entries are sent *)
-Lemma grpc_refuted :
-  wf grpc_dir /\
-  grpc_list 10 Lvl grpc_dir "" false 3 2 "" = Some [["a"; "b"]; ["d"; "e"]] /\
-  grpc_list 10 Gen grpc_dir "" false 3 2 "" = Some [["a"; "b"]; ["d"; "e"]] /\
-  firstn 3 (spec_names grpc_dir "" false "" "" "") = ["a"; "b"; "d"].
-Proof.
-  split; [apply wfb_wf; vm_compute; reflexivity|].
-  repeat (match goal with |- _ /\ _ => split end); vm_compute; reflexivity.
-Qed.
-
-(* non-vacuity of the partial statement: a callback that never refuses *)
-Example stop_example :
-  trig_stop [true; true] = false /\
-  s_proj (stream_list_s Lvl stop_dir "" false 2 "" "" "" [true; true]) = Some (["b"; "c"], "c") /\
-  s_proj (stream_list_s Gen stop_dir "" false 2 "" "*" "d" [true; true]) = Some (["b"; "c"], "c") /\
-  (* a refusal that the code does respect: nothing is owed when the callback stops *)
-  s_proj (stream_list_s Lvl stop_dir_live "" false 3 "" "" "" [true; false]) = Some (["a"; "b"], "b").
-Proof. repeat (match goal with |- _ /\ _ => split end); vm_compute; reflexivity. Qed.
 
 (* ================= lastFileName of a pattern listing ================= *)
 (* continuing from the returned lastFileName (exclusive) yields the selection behind the page,
